@@ -14,13 +14,13 @@ import (
 func main() {
 	sim.InitConfig()
 	run := sim.NewRun("C20", "fault_enumeration")
-	run.SetRule("Part A: one case = one virtual-time history (1 s polls, block time lagging the daemon clock by 0..3 s, delivery latency 0..2 polls) of a " +
+	run.SetRule("Part A: one case = one virtual-time history (1 s polls, block time lagging the daemon clock by 0..3 s, delivery latency 0..2 polls, block gaps 1..3 s) of a " +
 		"validator's grogu signaller against a real chain with voted current feeds; price streams with status flips, moves exactly at / one bp around the " +
 		"feed deviation, short outages, and a feed-list change; every poll the submission is compared with must-submit / must-not-submit sets derived from " +
 		"the property, every delivered tx must be accepted, the validator must never be deactivated for a miss. Part B: real signaller hand-off + real " +
 		"submitter goroutines with injected simulate/broadcast/query failures and time-outs; no signal in two unfinished submissions, everything released " +
 		"at quiescence. distinct = distinct (history, poll) decisions with a non-empty must set + distinct fault schedules")
-	run.Assume("timing envelope of the property: poll 1 s, block lag <= TimeBuffer (3 s), delivery latency <= 2 polls, feed intervals >= 40 s",
+	run.Assume("timing envelope of the property: poll 1 s, block lag <= TimeBuffer (3 s), delivery latency <= 2 polls, a block at least every 3 s (the feeds module's MaxGuaranteeBlockTime), feed intervals >= 40 s",
 		"a change to UNAVAILABLE is exempt from promptness (the daemon holds such prices back until 10 s before the deadline by design)",
 		"Part A models the submitter (delivery + release after the block); Part B runs the real one")
 	if run.ReplayCase != nil {
